@@ -22,6 +22,9 @@ def history_check(prop, tier, seed, shapes, monitors, modules, profiles, p_inval
     suites.append(run_suite(prop, b, profiles, monitors, "boundary"))
     r = gen.vec_random(shapes, z["nrand"], z["nops"], seed, p_invalid=p_invalid)
     suites.append(run_suite(prop, r, profiles, monitors, "random"))
+    # the same histories dispatched through the generic traits (SoAVec / SoASlice / SoASliceMut): the traits are the vector too
+    tr = [gen.to_trait(s) for s in (b[::5] + r[::2])]
+    suites.append(run_suite(prop, tr, profiles, monitors, "trait-dispatch"))
     if prop == "C03":
         # every other API that moves ownership: RefMut::replace, pointer writes, writes through views and iterators
         L = min(z["L"], 4)
@@ -41,7 +44,7 @@ def check_C01(tier, seed):
     return history_check("C01", tier, seed, gen.ALL_SHAPES, [mon_c01], ["Soa.Props.C01"], ["debug", "release"])
 
 def check_C02(tier, seed):
-    return history_check("C02", tier, seed, gen.ALL_SHAPES, [mon_c02], ["Soa.Props.C02"], ["debug", "release"], p_invalid=0.4)
+    return history_check("C02", tier, seed, gen.ALL_SHAPES, [mon_c02], ["Soa.Props.C02", "Soa.Props.World"], ["debug", "release"], p_invalid=0.4)
 
 def check_C03(tier, seed):
     return history_check("C03", tier, seed, gen.ALL_SHAPES, [mon_c03], ["Soa.Props.C03"], ["debug", "release"], p_invalid=0.3)
